@@ -728,6 +728,17 @@ func c19CorpusCut(c *worker.Ctx) {
 	if got.err != nil {
 		res.Probe("decode_error_returned")
 	}
+	// A strict prefix has lost part of the message. A reader may be lenient
+	// about what it lost (a missing final FIN byte, say) — but if it reports
+	// success, what it hands over must be the statement that was sent, not
+	// another, shorter one.
+	if k < len(it.Enc) && got.err == nil && got.panicV == nil && !got.spin {
+		if d := astcmp.Diff([]ast.Statement{it.Stmt}, got.stmts); d != "" {
+			res.Violate("C19/roundtrip", "C19/truncated-decodes-to-another-statement:"+fmt.Sprintf("%T", it.Stmt), fmt.Sprintf("the encoding of %s (%T, %d bytes) cut after %d bytes decodes WITHOUT an error to a different statement: %s", it.Name, it.Stmt, len(it.Enc), k, d))
+		} else {
+			res.Probe("lenient_decode_of_prefix_equal_to_original")
+		}
+	}
 }
 
 func firstDiff(a, b []byte) int {
